@@ -23,6 +23,16 @@ def build_case(Ls, Rs, opts):
     the case is outside the modelled fragment (float pow anomaly)."""
     L, R = etree.fromstring(Ls), etree.fromstring(Rs)
     desc = {"left": Ls, "right": Rs, "opts": {k: (v if not isinstance(v, tuple) else list(v)) for k, v in opts.items()}}
+    opts = dict(opts)
+    if opts.pop("_embed", False):
+        # Differ accepts any lxml Elements: hand the trees over as sub-elements of larger documents
+        # (same namespace declarations in scope)
+        for which, t in (("L", L), ("R", R)):
+            outer = etree.Element("outer", nsmap=t.nsmap)
+            etree.SubElement(outer, "sibling").tail = "x"
+            outer.append(t)
+            t.tail = None
+            etree.SubElement(outer, "sibling")
     if not (treeenc.supported(L) and treeenc.supported(R)):
         return None
     run = DiffRun(L, R, opts)
@@ -32,6 +42,9 @@ def build_case(Ls, Rs, opts):
     if not all(float_ok(v) for v in tab.values()):
         return None
     matches = run.match()
+    # C07 oracle on the matching, evaluated NOW (the script generation below mutates the left copy)
+    from harness import oracles
+    c07 = oracles.check_matches(run.left, run.R, run.d, list(run.d._matches), run.opts)
     try:
         script = run.script()
         sterm = "(Some %s)" % coq_list(script)
@@ -39,7 +52,7 @@ def build_case(Ls, Rs, opts):
     except treeenc.PathProblem as ex:
         # the implementation emitted a path that does not select exactly one node: cannot be
         # named by id; reported by the C04 oracle, not a correspondence case
-        return {"term": None, "desc": desc, "matches": matches, "raw": "PathProblem:%s" % (ex.args,), "run": run}
+        return {"term": None, "desc": desc, "matches": matches, "raw": "PathProblem:%s" % (ex.args,), "run": run, "c07": c07}
     except Exception as ex:  # noqa
         sterm, raw = "None", "exc:" + type(ex).__name__
     F = opts.get("F")
@@ -68,7 +81,18 @@ def build_case(Ls, Rs, opts):
         from harness.patcher_corr import coq_gaction
         gt = "(Some %s)" % coq_list([coq_gaction(a) for a in raw])
     term = "(%s, %s, %s)" % (term, pet, gt)
-    return {"term": term, "desc": desc, "matches": matches, "raw": raw, "run": run}
+    return {"term": term, "desc": desc, "matches": matches, "raw": raw, "run": run, "c07": c07}
+
+
+def in_model_domain(desc):
+    L, R = etree.fromstring(desc["left"]), etree.fromstring(desc["right"])
+    if L.nsmap.get(None) != R.nsmap.get(None):
+        return False
+    for root in (L, R):
+        top = set(root.nsmap.values())
+        if any(set(e.nsmap.values()) - top for e in root.iter() if isinstance(e.tag, str)):
+            return False
+    return True
 
 
 def gen_inputs(run, rng, n_random, exhaustive_nodes=0, option_sets=None, **genkw):
@@ -97,7 +121,9 @@ def run_corr(name, inputs, check="check_rcase", chunk=150):
             skipped += 1
             continue
         built.append(c)
-    withterm = [c for c in built if c["term"] is not None]
+    # inputs outside the model's stated domain (namespaces not declared on the roots, or a
+    # changed default namespace: recorded known findings) are evaluated by the oracles only
+    withterm = [c for c in built if c["term"] is not None and in_model_domain(c["desc"])]
     bad, log = lib.run_cases(name, PRE % check, [c["term"] for c in withterm], chunk=chunk)
     return {"name": "Differ.match/diff vs XV.Matcher/XV.Differ (%s)" % check, "cases": len(withterm), "bad": bad, "log": log,
             "describe": lambda i: withterm[i]["desc"], "built": built, "skipped": skipped}
